@@ -59,8 +59,29 @@ func ints(s string) []int {
 	if trackSpares {
 		spares = append(spares, full[len(parts):])
 		handed = append(handed, full)
+		handedCopy = append(handedCopy, append([]int{}, out...))
 	}
 	return out
+}
+
+// handedCopy: the contents of every list at the moment it was handed out.
+var handedCopy [][]int
+
+// callerSliceMutated reports whether the library changed the CONTENTS of a list it was given.
+func callerSliceMutated() bool {
+	bad := false
+	for i, h := range handed {
+		if i >= len(handedCopy) {
+			break
+		}
+		for j, v := range handedCopy[i] {
+			if h[j] != v {
+				bad = true
+			}
+		}
+	}
+	handedCopy = handedCopy[:0]
+	return bad
 }
 
 // handed: every int list given to the library during the current step (whole backing array).
